@@ -115,8 +115,10 @@ def scratch(patch, props, tier):
                     d = json.load(open(rp))
                     sid = os.path.basename(os.path.dirname(patch))
                     os.makedirs(os.path.join(VERIF, 'corpus', p), exist_ok=True)
-                    json.dump({'regress': 'seeded change %s' % sid, 'what': d.get('what'), 'replay': d['replay']},
-                              open(os.path.join(VERIF, 'corpus', p, 'regress-%s.json' % sid), 'w'), indent=1)
+                    dst = os.path.join(VERIF, 'corpus', p, 'regress-%s.json' % sid)
+                    with open(dst + '.tmp', 'w') as fh:          # (atomic: checks may be reading the corpus right now)
+                        json.dump({'regress': 'seeded change %s' % sid, 'what': d.get('what'), 'replay': d['replay']}, fh, indent=1)
+                    os.replace(dst + '.tmp', dst)
                     rec['saved'] = 'corpus/%s/regress-%s.json' % (p, sid)
             print(json.dumps(rec), flush=True)
     finally:
